@@ -214,8 +214,8 @@ theorem P.markerTypeOf_skel (p : P) (ty : MType) (r : P × Nat) (h : p.markerTyp
       · cases h
         exact P.handleForCategory_skel _ _ _
 
-@[simp] theorem P.marker_skel (p : P) (t : Nat) (ty : MType) (name : Nat) (strs : List Nat) :
-    skel (p.marker t ty name strs).1 = skel p := by
+@[simp] theorem P.marker_skel (p : P) (t : Nat) (ty : MType) (name : Nat) (strs : List Nat) (tm : MTiming) :
+    skel (p.marker t ty name strs tm).1 = skel p := by
   unfold P.marker
   split
   · rfl
@@ -293,6 +293,28 @@ theorem step_skel (p : P) (op : Op) (h1 : ∀ a b c, op ≠ .addProcess a b c) (
           congr 1; congr 1
           exact List.map_set_of (fun x : Process => (x.threads, x.pid)) _ _ _ _ hpr (by rfl)
       · rfl
+  | addKernelMapping lib s e r =>
+    simp only [step]
+    split
+    · split <;> rfl
+    · rfl
+  | removeKernelMapping s => rfl
+  | removeMapping pi start =>
+    simp only [step]
+    split
+    · rfl
+    · rename_i pr hpr
+      simp only [skel]
+      congr 1; congr 1
+      exact List.map_set_of (fun x : Process => (x.threads, x.pid)) _ _ _ _ hpr (by rfl)
+  | clearMappings pi =>
+    simp only [step]
+    split
+    · rfl
+    · rename_i pr hpr
+      simp only [skel]
+      congr 1; congr 1
+      exact List.map_set_of (fun x : Process => (x.threads, x.pid)) _ _ _ _ hpr (by rfl)
   | string s => rfl
   | category n c => simp [step]
   | subcategory c n =>
@@ -310,7 +332,7 @@ theorem step_skel (p : P) (op : Op) (h1 : ∀ a b c, op ≠ .addProcess a b c) (
   | sameSample t => simp [step]
   | allocSample t st => simp [step]
   | markerType n c f => simp only [step]; split <;> rfl
-  | marker t ty n strs => simp [step]
+  | marker t ty n strs tm => simp [step]
   | markerStack t m st => simp [step]
   | counter pi => simp only [step]; split <;> rfl
   | counterSample c => simp only [step]; split <;> rfl
